@@ -348,7 +348,11 @@ class World(object):
                  exc=fl.value)
             if w.armed and req.kind in ("publish", "subscribe", "unsubscribe") and req.ret == "deferred" and len(w.ctx_stack) > 0 \
                     and not (w.ctx and w.ctx[0] == "api" and w.ctx[-1] == req.rid):
-                w.react(req.conn, "request_failed", allow_lost=True)
+                cur = w.cur.get(req.conn.a)
+                if cur is not None and cur is not req.conn and not cur.lost:
+                    w.react(cur, "request_failed")          # the application reacts on the protocol it holds now
+                else:
+                    w.react(req.conn, "request_failed", allow_lost=True)
             return None
         d.addCallbacks(ok, err)
 
